@@ -134,24 +134,26 @@ def rule_args(repo, rule):
     fe = repo.fn(RT, "for_each_in")
     conv, struct = fe.params[0], fe.params[1]
     handled = {}
-    node = fe.node.body[0] if fe.node.body and not isinstance(fe.node.body[0], ast.Expr) else None
-    for s in fe.node.body:
-        if isinstance(s, ast.If):
-            node = s
-    chain = []
-    cur = node
-    while isinstance(cur, ast.If):
-        chain.append(cur)
-        cur = cur.orelse[0] if len(cur.orelse) == 1 and isinstance(cur.orelse[0], ast.If) else (cur.orelse or None)
-        if isinstance(cur, list):
-            final = cur
-            break
-    else:
-        final = None
-    for iff in chain:
+    # every `if isinstance(struct, T):` of the function, whether chained with elif or written as early returns
+    for iff in [n for n in ast.walk(fe.node) if isinstance(n, ast.If)]:
         t = iff.test
-        if isinstance(t, ast.Call) and norm(t.func) == "isinstance" and norm(t.args[0]) == struct:
+        if isinstance(t, ast.Call) and norm(t.func) == "isinstance" and len(t.args) == 2 and norm(t.args[0]) == struct:
             handled[norm(t.args[1])] = iff
+    # the leaf: `return converter(struct)` reached when no container test matched
+    final = None
+    leafs = [n for n in ast.walk(fe.node) if isinstance(n, ast.Return) and n.value is not None
+             and norm(n.value) == "%s(%s)" % (conv, struct)]
+    if leafs:
+        final = [leafs[0]]
+    # helpers that recurse:  lambda x: for_each_in(converter, x)  /  def recurse(x): return for_each_in(converter, x)
+    recursers = set()
+    for n in ast.walk(fe.node):
+        if isinstance(n, ast.FunctionDef) and n is not fe.node and len(n.body) >= 1 and isinstance(n.body[-1], ast.Return) \
+                and n.args.args and norm(n.body[-1].value) == "for_each_in(%s, %s)" % (conv, n.args.args[0].arg):
+            recursers.add(n.name)
+        if isinstance(n, ast.Assign) and isinstance(n.value, ast.Lambda) and n.value.args.args and \
+                norm(n.value.body) == "for_each_in(%s, %s)" % (conv, n.value.args.args[0].arg):
+            recursers.add(norm(n.targets[0]))
     for typ in ("list", "tuple", "dict"):
         iff = handled.get(typ)
         where = fe.loc(iff) if iff else fe.loc()
@@ -162,7 +164,8 @@ def rule_args(repo, rule):
         r = iff.body[0].value if iff.body and isinstance(iff.body[0], ast.Return) else None
         txt = norm(r) if r is not None else ""
         filt = any(isinstance(x, ast.comprehension) and x.ifs for x in ast.walk(r)) if r is not None else True
-        rec = "for_each_in(%s," % conv in txt.replace(" ", "").replace("for_each_in(%s, " % conv, "for_each_in(%s," % conv)
+        rec = "for_each_in(%s," % conv in txt.replace(" ", "").replace("for_each_in(%s, " % conv, "for_each_in(%s," % conv) or any(
+            ("map(%s," % h) in txt.replace(" ", "") or ("%s(" % h) in txt for h in recursers)
         rev_ = "reversed(" in txt or "sorted(" in txt
         covers = _iterates_whole(r, struct) if r is not None else False
         if r is not None and rec and covers and not filt and not rev_:
@@ -215,9 +218,24 @@ def rule_args(repo, rule):
             tgt = getattr(c, "_parent", None)
             if isinstance(tgt, ast.Assign):
                 last_conv = norm(tgt.targets[0])
-    if starred and last_conv and starred[0] == last_conv:
-        rule.ok(sn.loc(fc), sn.fq, norm(fc), "the function receives the converted arguments")
-    else:
+    # the passes form a chain: args -> pass 1 -> pass 2 -> pass 3 -> fn(*result)
+    arg_calls = sorted([v[0] for v in arg_convs.values()], key=lambda c: c.lineno)
+    vararg = sn.node.args.vararg.arg if sn.node.args.vararg else None
+    cur = vararg
+    chain_ok = True
+    for c in arg_calls:
+        src = norm(c.args[1])
+        tgt = getattr(c, "_parent", None)
+        if src != cur or not isinstance(tgt, ast.Assign):
+            chain_ok = False
+            rule.violation(sn.loc(c), sn.fq, "%s reads `%s`, the previous pass produced `%s`" % (norm(tgt)[:70] if tgt is not None else norm(c)[:70], src, cur),
+                           "an argument-conversion pass does not consume the output of the previous pass: the previous conversion "
+                           "is dropped and those arguments reach the function unconverted", "snark/chain/%s" % norm(c.args[0].body.test)[:30])
+            break
+        cur = norm(tgt.targets[0])
+    if chain_ok and starred and starred[0] == cur:
+        rule.ok(sn.loc(fc), sn.fq, norm(fc), "passes chained args -> ... -> `%s`; the function receives the converted arguments" % cur)
+    elif chain_ok:
         rule.violation(sn.loc(fc), sn.fq, norm(fc), "the function is not called on the converted arguments", "snark/callargs")
     kw = [s for s in sn.node.body if isinstance(s, ast.If) and norm(s.test) in ("kwargs", "len(kwargs) > 0", "kwargs != {}")
           and any(isinstance(b, ast.Raise) for b in s.body)]
